@@ -1079,6 +1079,27 @@ func (a *analysis) oracleC13() verdict {
 	for i, t := range stream {
 		pos[t.line] = append(pos[t.line], i)
 	}
+	// a line may be written more than once (a heartbeat): it is then owed once per
+	// successful Write that carried it
+	owed := map[string]int{}
+	var lastRepeatRet int64
+	for _, o := range a.hist() {
+		if o.Op.K != "write" || o.Skipped || !strings.HasSuffix(o.Res, ",<nil>") {
+			continue
+		}
+		for _, l := range strings.Split(strings.TrimSuffix(o.Op.S, "\n"), "\n") {
+			owed[l]++
+		}
+	}
+	for _, o := range a.hist() {
+		if o.Op.K == "write" && !o.Skipped && o.Ret > lastRepeatRet {
+			for _, l := range strings.Split(strings.TrimSuffix(o.Op.S, "\n"), "\n") {
+				if owed[l] > 1 {
+					lastRepeatRet = o.Ret
+				}
+			}
+		}
+	}
 	var ws []writeRec
 	overlap := false
 	var relT int64
@@ -1115,6 +1136,16 @@ func (a *analysis) oracleC13() verdict {
 		// writers some time after the delay channel was closed)
 		beforeRender := sc.Delay && (relT == 0 || o.Inv < relT || len(a.frames) == 0 || o.Inv < a.frames[0].T1)
 		refreshing := sc.Mode == "auto" || sc.Mode == "pty"
+		repeated := false
+		for _, l := range lines {
+			if owed[l] > 1 {
+				repeated = true
+			}
+		}
+		if repeated {
+			// identical lines cannot be told apart: only their number is judged (below)
+			continue
+		}
 		for li, l := range lines {
 			ps := pos[l]
 			if len(ps) > 1 {
@@ -1149,6 +1180,26 @@ func (a *analysis) oracleC13() verdict {
 					return a.fv("text-lost-manual", "successful Write returned at t=%d, a later cycle (frame %d) began at t=%d, yet its text never appeared", o.Ret, f.Idx, a.begins[f.Cycle])
 				}
 			}
+		}
+	}
+	// lines written several times: emitted as often as they were successfully written,
+	// once a render cycle has begun after the last of those writes returned
+	for l, n := range owed {
+		if n < 2 {
+			continue
+		}
+		got := len(pos[l])
+		if got > n {
+			return a.fv("text-duplicated", "line %q was successfully written %d times and appears %d times in the output", l, n, got)
+		}
+		settled := false
+		for _, f := range a.frames {
+			if f.Cycle >= 0 && f.Cycle < len(a.begins) && a.begins[f.Cycle] > lastRepeatRet {
+				settled = true
+			}
+		}
+		if got < n && settled && !sc.Delay {
+			return a.fv("text-lost-repeated", "line %q was successfully written %d times (the last Write returned at t=%d, a render cycle began after that) but appears only %d times in the output", l, n, lastRepeatRet, got)
 		}
 	}
 	// every emitted text line belongs to some write
